@@ -1,2 +1,2 @@
 (** C04: all lemmas. *)
-From C04 Require Export ProofsBase ProofsDL ProofsRun.
+From C04 Require Export ProofsBase ProofsLift ProofsDL ProofsRun ProofsRace.
